@@ -218,15 +218,41 @@ func scenario(t *testing.T, idx int64, c ctor, r *rand.Rand) {
 				time.Sleep(time.Duration(1+r.IntN(5)) * time.Millisecond) // staggered, distinct arrival instants
 				expire()
 				ctx, cancel := context.WithCancel(context.Background())
+				kindOfCtx := ""
+				switch {
+				case c.Evict && r.IntN(6) == 0:
+					// the caller's context is already done when it arrives (eviction on): it is turned away at once and never
+					// becomes part of the line
+					cancel()
+					kindOfCtx = "done-on-arrival"
+				case !c.Evict && r.IntN(5) == 0:
+					// a context whose own deadline passes while the caller is queued (eviction off: it keeps its place)
+					ctx, cancel = context.WithDeadline(context.Background(), time.Now().Add(time.Duration(1+r.IntN(3))*time.Millisecond))
+					kindOfCtx = "deadline-expires-while-queued"
+				}
 				w := &waiter{id: len(ws), cancel: cancel, arrived: now()}
 				ws = append(ws, w)
-				waiting = append(waiting, w)
+				if kindOfCtx != "done-on-arrival" {
+					waiting = append(waiting, w)
+				}
 				go func() {
 					w.l, w.ok = lim.Acquire(ctx)
 					w.done.Store(true)
 				}()
 				synctest.Wait()
-				trace = append(trace, fmt.Sprintf("t=%v waiter %d arrives", now(), w.id))
+				trace = append(trace, fmt.Sprintf("t=%v waiter %d arrives %s", now(), w.id, kindOfCtx))
+				if kindOfCtx == "done-on-arrival" {
+					rt.Count("arrivals_with_a_done_context", 1)
+					w.gone, w.seen = true, true
+					if !w.done.Load() || w.ok {
+						fail("caller-with-a-done-context-not-turned-away-at-once", rt.J{"waiter": w.id, "returned": w.done.Load(), "ok": w.ok})
+						bad = true
+					}
+					continue
+				}
+				if kindOfCtx != "" {
+					rt.Count("arrivals_whose_context_deadline_passes_while_queued", 1)
+				}
 				if w.done.Load() {
 					fail("waiter-returned-although-capacity-exhausted", rt.J{"waiter": w.id, "ok": w.ok})
 					bad = true
